@@ -41,9 +41,9 @@ type Session struct {
 	Silent bool   `json:"silent"` // no observer events, no steering (race-detector runs)
 	Hooks  bool   `json:"hooks"`  // record the result-map lock status at every result write
 	// BadData: every pool request also carries an entry with a nil value and one with an empty key
-	BadData bool `json:"baddata"`
-	Rules  []Rule `json:"rules"`
-	Calls  []Call `json:"calls"`
+	BadData bool   `json:"baddata"`
+	Rules   []Rule `json:"rules"`
+	Calls   []Call `json:"calls"`
 }
 
 // legal loops that must simply end (tpl "N:<code>"): the body lengthens the collection it ranges over (reached through
@@ -53,6 +53,7 @@ var benignSnippets = map[string]string{
 	"grow-range-map": "forRange k := fobj.MM {\n fobj.PutM()\n }",
 	"long-for":       "for k = 0; k < 3000; k += 1 {\n t = k\n }",
 	"nested-for":     "for k = 0; k < 30; k += 1 {\n for j = 0; j < 30; j += 1 {\n t = k + j\n }\n }",
+	"break-inner":    "for k = 0; k < 300; k += 1 {\n for j = 0; j < 100; j += 1 {\n if j == 40 {\n break\n }\n t = j\n }\n }",
 	"range-in-for":   "for k = 0; k < 3; k += 1 {\n forRange j := fobj.Items {\n t = j\n }\n fobj.Grow()\n }",
 }
 
@@ -185,14 +186,16 @@ type Cnt struct{ I int64 }
 func faultData() map[string]interface{} {
 	var nilobj *FObj
 	var nilfn func() int64
-	return map[string]interface{}{
+	m := map[string]interface{}{
 		"fobj": &FObj{I: 5, In: &FIn{I: 6}, Items: []int64{1, 2}, MM: map[string]int64{"a": 1}}, "nilobj": nilobj, "farr": []int64{1, 2, 3}, "fempty": []int64{},
 		"fms": map[string]int64{"k": 1}, "fval": FObj{I: 1}, "fnum": int64(4), "zero": int64(0),
 		"boomfn": func() bool { panic("injected function panics") }, "nilfn": nilfn,
 		"ev": func(v interface{}) {}, "ev2": func(a, b int64) {}, "evint": func(a int64) {},
-		"cnt_r1": &Cnt{}, "cnt_r2": &Cnt{}, "cnt_r3": &Cnt{}, "cnt_r4": &Cnt{}, "cnt_r5": &Cnt{}, "cnt_r6": &Cnt{}, "cnt_r7": &Cnt{},
-		"cnt_r8": &Cnt{}, "cnt_r9": &Cnt{}, "cnt_r10": &Cnt{}, "cnt_r11": &Cnt{}, "cnt_r12": &Cnt{}, "cnt_r13": &Cnt{}, "cnt_r14": &Cnt{},
 	}
+	for i := 1; i <= 40; i++ {
+		m[fmt.Sprintf("cnt_r%d", i)] = &Cnt{}
+	}
+	return m
 }
 
 func ruleText(rs []Rule) string {
@@ -222,6 +225,9 @@ func ruleText(rs []Rule) string {
 		if r.RK == "loop" {
 			// the returned value is an injected field that the step of the enclosing loop would change
 			fmt.Fprintf(&sb, "  if doRet(\"%s\") {\n    for cnt_%s.I = 0; cnt_%s.I < 5; cnt_%s.I += 1 {\n      if cnt_%s.I == 2 {\n        leaveRetV(\"%s\", 2)\n        return cnt_%s.I\n      }\n    }\n  }\n", n, n, n, n, n, n, n)
+		} else if r.RK == "range" {
+			// the return is the whole body of a forRange (the "first key" idiom)
+			fmt.Fprintf(&sb, "  if doRet(\"%s\") {\n    forRange rk := farr {\n      return leaveRet(\"%s\")\n    }\n  }\n", n, n)
 		} else {
 			fmt.Fprintf(&sb, "  if doRet(\"%s\") { v = leaveRet(\"%s\")\n return v }\n", n, n)
 		}
@@ -269,37 +275,37 @@ func apis() map[string]interface{} {
 		"doFault": func(n string) bool { return cur.beh[n] == "fault" },
 		"prefail": func(n string) {
 			// the fault follows: the end of this execution is logged as failed before it happens
-			cur.o.EmitEnd(obs.Event{"ev": "end", "r": n, "out": "fail", "val": "", "st": cur.tagset[n]})
+			cur.o.EmitEnd(obs.Event{"ev": "end", "r": n, "out": "fail", "val": "", "st": cur.tagset[n], "want": cur.beh[n]})
 		},
 		"doFail":    func(n string) bool { return cur.beh[n] == "fail" },
 		"doRet":     func(n string) bool { return cur.beh[n] == "ret" },
 		"doRetNil":  func(n string) bool { return cur.beh[n] == "retnil" },
 		"doFailRet": func(n string) bool { return cur.beh[n] == "failret" },
 		"boom": func(n string) int64 {
-			cur.o.EmitEnd(obs.Event{"ev": "end", "r": n, "out": "fail", "val": "", "st": cur.tagset[n]})
+			cur.o.EmitEnd(obs.Event{"ev": "end", "r": n, "out": "fail", "val": "", "st": cur.tagset[n], "want": cur.beh[n]})
 			panic("boom " + n)
 		},
 		"leaveRet": func(n string) int64 {
 			v := cur.val(n)
-			cur.o.EmitEnd(obs.Event{"ev": "end", "r": n, "out": "ret", "val": fmt.Sprint(v), "st": cur.tagset[n]})
+			cur.o.EmitEnd(obs.Event{"ev": "end", "r": n, "out": "ret", "val": fmt.Sprint(v), "st": cur.tagset[n], "want": cur.beh[n]})
 			return v
 		},
 		"leaveRetV": func(n string, v int64) {
-			cur.o.EmitEnd(obs.Event{"ev": "end", "r": n, "out": "ret", "val": fmt.Sprint(v), "st": cur.tagset[n]})
+			cur.o.EmitEnd(obs.Event{"ev": "end", "r": n, "out": "ret", "val": fmt.Sprint(v), "st": cur.tagset[n], "want": cur.beh[n]})
 		},
 		"leaveNil": func(n string) {
-			cur.o.EmitEnd(obs.Event{"ev": "end", "r": n, "out": "ret", "val": "nil", "st": cur.tagset[n]})
+			cur.o.EmitEnd(obs.Event{"ev": "end", "r": n, "out": "ret", "val": "nil", "st": cur.tagset[n], "want": cur.beh[n]})
 		},
 		"leave": func(n string) {
-			cur.o.EmitEnd(obs.Event{"ev": "end", "r": n, "out": "ok", "val": "", "st": cur.tagset[n]})
+			cur.o.EmitEnd(obs.Event{"ev": "end", "r": n, "out": "ok", "val": "", "st": cur.tagset[n], "want": cur.beh[n]})
 		},
 		"fin": func(n string) int64 {
 			if cur.beh[n] == "topfail" {
-				cur.o.EmitEnd(obs.Event{"ev": "end", "r": n, "out": "fail", "val": "", "st": cur.tagset[n]})
+				cur.o.EmitEnd(obs.Event{"ev": "end", "r": n, "out": "fail", "val": "", "st": cur.tagset[n], "want": cur.beh[n]})
 				panic("topfail " + n)
 			}
 			v := cur.val(n)
-			cur.o.EmitEnd(obs.Event{"ev": "end", "r": n, "out": "ret", "val": fmt.Sprint(v), "st": cur.tagset[n]})
+			cur.o.EmitEnd(obs.Event{"ev": "end", "r": n, "out": "ret", "val": fmt.Sprint(v), "st": cur.tagset[n], "want": cur.beh[n]})
 			return v
 		},
 	}
@@ -505,11 +511,11 @@ func runSession(s *Session, quiet time.Duration, seed int64, callTimeout time.Du
 				}()
 				if pool != nil {
 					data := map[string]interface{}{"stag": stag}
-				if s.BadData {
-					data["nilv"] = nil
-					data[""] = int64(1)
-				}
-				oc.err, oc.keys = dispatch.PoolCall(pool, c, stag, data)
+					if s.BadData {
+						data["nilv"] = nil
+						data[""] = int64(1)
+					}
+					oc.err, oc.keys = dispatch.PoolCall(pool, c, stag, data)
 				} else {
 					oc.err = dispatch.EngineCall(g, rb, c, stag)
 					oc.keys, _ = g.GetRulesResultMap()
